@@ -568,4 +568,168 @@ theorem sim_restart {c c' : Cl} (h : Sim c c') : SimRes (restart c) (restart c')
   refine simRes_ite (fun _ => simRes_mk ⟨_, rfl, ?_⟩) (fun _ => simRes_mk ⟨m', rfl, hm⟩)
   exact hm.zero_both
 
+/-! ## histories -/
+
+open MdkVerif.Props.C08 (COp)
+
+def isRestart : COp → Bool
+  | .restart => true
+  | _ => false
+
+/-- one API call with its result (`C08.cstep` with the result kept: `rstep_fst`) -/
+def rstep (c : Cl) : COp → Cl × Res
+  | .deliver e nx => deliver c e nx
+  | .send n ts idn mid mts tok => send c n ts idn mid mts tok
+  | .stage n ts idn b na => stageCommit c n ts idn b na
+  | .data n ts idn u => updateData c n ts idn u
+  | .remove n ts idn who => removeMembers c n ts idn who
+  | .add n ts idn who => addMembers c n ts idn who
+  | .join mp g e => (join c (welcomeState mp g e), .ok)
+  | .leave n ts idn => leave c n ts idn
+  | .merge => merge c
+  | .clear => clear c
+  | .restart => restart c
+
+theorem rstep_fst (c : Cl) (o : COp) : (rstep c o).1 = MdkVerif.Props.C08.cstep c o := by cases o <;> rfl
+
+/-- a history: the final client and the results of all calls but the restarts -/
+def run (c : Cl) : List COp → Cl × List Res
+  | [] => (c, [])
+  | o :: os => ((run (rstep c o).1 os).1, if isRestart o then (run (rstep c o).1 os).2 else (rstep c o).2 :: (run (rstep c o).1 os).2)
+
+/-- the same history without its restarts -/
+def strip (ops : List COp) : List COp := ops.filter (fun o => !isRestart o)
+
+theorem run_fst (c : Cl) (ops : List COp) : (run c ops).1 = ops.foldl MdkVerif.Props.C08.cstep c := by
+  induction ops generalizing c with
+  | nil => rfl
+  | cons o os ih => simp only [run, List.foldl, ih, rstep_fst]
+
+/-- the call rolls back for a candidate in the restart-free run (`c`) while the snapshot it is compared with is
+    hydrated in the restarted run (`c'`): taken before the last restart -/
+def staleWin (c c' : Cl) : COp → Bool
+  | .deliver e _ => winsAt c e && hydratedAt c' (epochOf e.path)
+  | _ => false
+
+/-- no call of the history (`c`: restart-free run, `c'`: run with the restarts) is a stale win -/
+def noStaleWin : Cl → Cl → List COp → Bool
+  | _, _, [] => true
+  | c, c', o :: os =>
+    if isRestart o then noStaleWin c (restart c').1 os
+    else !staleWin c c' o && noStaleWin (rstep c o).1 (rstep c' o).1 os
+
+/-- the call does not roll back for a better competitor -/
+def quietStep (c : Cl) : COp → Bool
+  | .deliver e _ => !winsAt c e
+  | _ => true
+
+/-- no delivery of the run is judged better against a snapshot -/
+def quietRun : Cl → List COp → Bool
+  | _, [] => true
+  | c, o :: os => quietStep c o && quietRun (rstep c o).1 os
+
+theorem sim_rstep {c c' : Cl} (h : Sim c c') (o : COp) (hs : staleWin c c' o = false) : SimRes (rstep c o) (rstep c' o) := by
+  cases o with
+  | deliver e nx =>
+    refine sim_deliver h e nx ?_
+    intro hw
+    simp only [staleWin, hw, Bool.true_and] at hs
+    refine (isBetter_sim_iff c c' h.mgr _ e).2 ⟨?_, hs⟩
+    simp only [winsAt, Bool.and_eq_true] at hw
+    exact hw.2
+  | send n ts idn mid mts tok => exact sim_send h n ts idn mid mts tok
+  | stage n ts idn b na => exact sim_stageCommit h n ts idn b na
+  | data n ts idn u => exact sim_updateData h n ts idn u
+  | remove n ts idn who => exact sim_removeMembers h n ts idn who
+  | add n ts idn who => exact sim_addMembers h n ts idn who
+  | join mp g e => exact simRes_mk (sim_join h _)
+  | leave n ts idn => exact sim_leave h n ts idn
+  | merge => exact sim_merge h
+  | clear => exact sim_clear h
+  | restart => exact sim_restart h
+
+theorem rstep_restart (c : Cl) (o : COp) (h : isRestart o = true) : rstep c o = restart c := by
+  cases o <;> first | rfl | cases h
+
+/-- **the simulation, for histories**: related clients, the restarted one runs `ops`, the other `ops` without the
+    restarts; unless a call is a stale win they end related and every call answered the same -/
+theorem run_sim (ops : List COp) {c c' : Cl} (h : Sim c c') (hq : noStaleWin c c' ops = true) :
+    Sim (run c (strip ops)).1 (run c' ops).1 ∧ (run c' ops).2 = (run c (strip ops)).2 := by
+  induction ops generalizing c c' with
+  | nil => exact ⟨h, rfl⟩
+  | cons o os ih =>
+    by_cases hr : isRestart o = true
+    · have hst : strip (o :: os) = strip os := by simp [strip, List.filter, hr]
+      simp only [noStaleWin, hr, if_true] at hq
+      rw [hst]
+      simp only [run, hr, if_true, rstep_restart c' o hr]
+      exact ih (sim_restart_right h) hq
+    · have hr' : isRestart o = false := by simpa using hr
+      have hst : strip (o :: os) = o :: strip os := by simp [strip, List.filter, hr']
+      simp only [noStaleWin, hr', Bool.false_eq_true, if_false, Bool.and_eq_true, Bool.not_eq_true'] at hq
+      rw [hst]
+      simp only [run, hr', Bool.false_eq_true, if_false]
+      obtain ⟨hs1, hs2⟩ := sim_rstep h o hq.1
+      obtain ⟨i1, i2⟩ := ih hs1 hq.2
+      exact ⟨i1, by rw [hs2, i2]⟩
+
+/-- a snapshot that wins has a timestamp: on one and the same client no win is stale -/
+theorem staleWin_self (c : Cl) (o : COp) : staleWin c c o = false := by
+  cases o with
+  | deliver e nx =>
+    simp only [staleWin]
+    cases hw : winsAt c e with
+    | false => rfl
+    | true =>
+      simp only [winsAt, Bool.and_eq_true] at hw
+      have := (isBetter_sim_iff c c (MgrRel.refl _) _ e).1 hw.2
+      simp [this.2]
+  | _ => rfl
+
+/-- a quiet call is no stale win, whatever the restarted client looks like -/
+theorem staleWin_of_quiet (c c' : Cl) (o : COp) (h : quietStep c o = true) : staleWin c c' o = false := by
+  cases o with
+  | deliver e nx =>
+    simp only [quietStep, Bool.not_eq_true'] at h
+    simp [staleWin, h]
+  | _ => rfl
+
+theorem noStaleWin_of_quiet (ops : List COp) (c c' : Cl) (h : quietRun c (strip ops) = true) : noStaleWin c c' ops = true := by
+  induction ops generalizing c c' with
+  | nil => rfl
+  | cons o os ih =>
+    by_cases hr : isRestart o = true
+    · have hst : strip (o :: os) = strip os := by simp [strip, List.filter, hr]
+      rw [hst] at h
+      simp only [noStaleWin, hr, if_true]
+      exact ih c _ h
+    · have hr' : isRestart o = false := by simpa using hr
+      have hst : strip (o :: os) = o :: strip os := by simp [strip, List.filter, hr']
+      rw [hst] at h
+      simp only [quietRun, Bool.and_eq_true] at h
+      simp only [noStaleWin, hr', Bool.false_eq_true, if_false, Bool.and_eq_true, Bool.not_eq_true']
+      exact ⟨staleWin_of_quiet c c' o h.1, ih _ _ h.2⟩
+
+theorem strip_noRestart (ops : List COp) (h : ∀ o ∈ ops, isRestart o = false) : strip ops = ops := by
+  simp only [strip, List.filter_eq_self]
+  intro o ho; simp [h o ho]
+
+theorem run_append (c : Cl) (a b : List COp) :
+    run c (a ++ b) = ((run (run c a).1 b).1, (run c a).2 ++ (run (run c a).1 b).2) := by
+  induction a generalizing c with
+  | nil => rfl
+  | cons o os ih =>
+    simp only [List.cons_append, run, ih]
+    split <;> rfl
+
+/-- up to the first restart the two runs are one and the same: nothing is asked of those calls -/
+theorem noStaleWin_prefix (pre post : List COp) (c : Cl) (h : ∀ o ∈ pre, isRestart o = false) :
+    noStaleWin c c (pre ++ post) = noStaleWin (run c pre).1 (run c pre).1 post := by
+  induction pre generalizing c with
+  | nil => rfl
+  | cons o os ih =>
+    have hr : isRestart o = false := h o (List.mem_cons_self ..)
+    simp only [List.cons_append, noStaleWin, hr, Bool.false_eq_true, if_false, staleWin_self, Bool.not_false, Bool.true_and, run]
+    exact ih _ (fun x hx => h x (List.mem_cons_of_mem _ hx))
+
 end MdkVerif.Client
